@@ -3,6 +3,8 @@ package main
 import (
 	"fmt"
 	"os"
+	"path/filepath"
+	"strings"
 )
 
 // cmdSelftest checks that the solver back end answers and (translator validation) that the interpreter in
@@ -21,6 +23,84 @@ func cmdSelftest(args []string) int {
 	r, err := s.Check()
 	if r != "unsat" {
 		fmt.Fprintln(os.Stderr, "selftest: solver sanity failed:", r, err)
+		return 2
+	}
+	if len(args) > 0 && args[0] == "--solver-only" {
+		fmt.Println("selftest ok (solver only)")
+		return 0
+	}
+	return translatorValidation("/repo", "/verif")
+}
+
+// tvHarnesses: harnesses without nondet inputs that emit a canonical rendering of what the real code computes.
+var tvHarnesses = []struct{ pkg, harness string }{
+	{"snap", "VerifTVSnap"},
+}
+
+func translatorValidation(repo, verif string) int {
+	work := filepath.Join(verif, ".work", fmt.Sprintf("selftest-%d", os.Getpid()))
+	defer os.RemoveAll(work)
+	c := &checkCtx{repo: repo, verif: verif, hdir: filepath.Join(verif, "harness"), work: work}
+	ov, err := overlayFor(repo, c.hdir)
+	if err != nil {
+		fmt.Fprintln(os.Stderr, err)
+		return 2
+	}
+	c.overlay = ov
+	if err := c.generate(); err != nil {
+		fmt.Fprintln(os.Stderr, "selftest: generate:", err)
+		return 2
+	}
+	empty := filepath.Join(work, "empty.json")
+	os.WriteFile(empty, []byte(`{"inputs":{}}`), 0o644)
+	bad := 0
+	for _, tv := range tvHarnesses {
+		p, err := c.load(tv.pkg)
+		if err != nil {
+			fmt.Fprintln(os.Stderr, "selftest: load:", err)
+			return 2
+		}
+		fn, err := p.Entry(repoModule+"/"+tv.pkg, tv.harness)
+		if err != nil {
+			fmt.Fprintln(os.Stderr, "selftest:", err)
+			return 2
+		}
+		p.Mode = ModeMath
+		p.Budget = 200000000
+		p.Concrete = map[string]string{}
+		res, err := Explore(p, fn, RunOpts{Workers: 1, TimeoutMs: 10000}, nil)
+		if err != nil {
+			fmt.Fprintln(os.Stderr, "selftest: explore:", err)
+			return 2
+		}
+		status, out := c.runReplay(tv.pkg, tv.harness, empty)
+		native := ""
+		for _, l := range strings.Split(out, "\n") {
+			if strings.HasPrefix(l, "VERIF-EMIT ") {
+				native = strings.TrimPrefix(l, "VERIF-EMIT ")
+			}
+		}
+		interp := strings.Join(res.Emits, "")
+		if status != "pass" || native == "" || len(res.Emits) == 0 || res.ByStatus["ok"] != 1 {
+			fmt.Printf("translator validation %s: could not run (native status %s, interpreter %v %v)\n%s\n", tv.harness, status, res.ByStatus, res.Problems, tail(out, 10))
+			bad++
+			continue
+		}
+		if native != interp {
+			fmt.Printf("translator validation %s: MISMATCH between interpreter and native build\n", tv.harness)
+			na, ia := strings.Split(native, "|"), strings.Split(interp, "|")
+			for i := 0; i < len(na) && i < len(ia); i++ {
+				if na[i] != ia[i] {
+					fmt.Printf("  case %d:\n   native: %s\n   interp: %s\n", i, na[i], ia[i])
+					break
+				}
+			}
+			bad++
+			continue
+		}
+		fmt.Printf("translator validation %s: interpreter == native on %d cases (%d instructions interpreted)\n", tv.harness, strings.Count(native, "|"), res.Steps)
+	}
+	if bad > 0 {
 		return 2
 	}
 	fmt.Println("selftest ok")
